@@ -6,13 +6,12 @@ From Coq Require Import NArith List.
 From Coq Require Extraction.
 From Coq Require Import ExtrOcamlBasic.
 From V Require Import Base.Res Base.Word Base.MachInt gen.GenConsts gen.GenFormulas Model.RsHash
-  Spec.Compress Spec.Tree Spec.Blake3 Model.Portable Model.Platform Model.RsChunk Model.RsWide.
+  Spec.Compress Spec.Tree Spec.Blake3 Model.Portable Model.Platform Model.RsChunk Model.RsWide Model.RsHasher Model.RsXof Model.RsIo Model.Machine.
 
-Definition sim_platform (degree max_degree : N) : platform :=
-  mkPlatform degree max_degree compress_in_place compress_xof hash_many portable_xof_many.
+
 
 Extraction "model.ml"
   Res.debug_only RsHash.to_hex RsHash.from_hex RsHash.from_slice RsHash.constant_time_eq
-  sim_platform RsWide.rs_hash RsWide.rs_keyed_hash RsWide.rs_derive_key
+  Machine.run_case Platform.sim_platform RsWide.rs_hash RsWide.rs_keyed_hash RsWide.rs_derive_key
   Blake3.b3_hash Blake3.b3_keyed_hash Blake3.b3_derive_key Blake3.b3_xof_mode
   GenFormulas.rs_left_subtree_len GenFormulas.rs_max_subtree_len GenFormulas.rs_largest_power_of_two_leq.
